@@ -96,6 +96,8 @@ func main() {
 		runC05(*seed, *n, *exh, *workers)
 	case "c06":
 		runC06(*seed, *n)
+	case "c12":
+		runC12(*seed, *n, *workers)
 	case "c19":
 		runC19(*seed, *n, *workers)
 	default:
